@@ -3,6 +3,7 @@
    when a node is rebuilt, with a comparator that is the subject of C29, not of C23). *)
 Require Import UFLV.Core.Den.
 Require Import UFLV.Props.C23_model.
+Require Import String.
 
 Fixpoint lnat_eqb (a b : list nat) : bool :=
   match a, b with
@@ -114,8 +115,50 @@ Definition rm_cutoff_handlers : list String.string := [].
 Definition ty_code (t : ty) : nat := match t with TReal => 0 | TComplex => 1 | TBool => 2 end.
 
 (* model verdict on [inp] agrees with the implementation's verdict / output tree / root nodetype *)
-Definition agree_check (fixm : bool) (inp : expr) (impl : option (expr * nat)) : bool :=
-  match check (cfn_of fixm) (cbs_of fixm) inp, impl with
+(* The variant of the analysis as T1 reads it from the live dispatch table: the list [cl] of math-function /
+   Bessel node classes whose handler is the constant-"complex" rule (`sqrt` or an alias of it).  ANY subset
+   is representable; the theorems of C23_sound.v hold for every cfn / cbs, and their guard [inF] says
+   which nodes are covered (a class outside cl must satisfy the real-closure hypothesis okfn / okb). *)
+Open Scope string_scope.
+Definition mathfn_class (f : mathfn) : string :=
+  match f with
+  | FSqrt => "Sqrt" | FExp => "Exp" | FLn => "Ln" | FCos => "Cos" | FSin => "Sin" | FTan => "Tan"
+  | FCosh => "Cosh" | FSinh => "Sinh" | FTanh => "Tanh" | FAcos => "Acos" | FAsin => "Asin"
+  | FAtan => "Atan" | FErf => "Erf"
+  end.
+Definition bkind_class (k : bkind) : string :=
+  match k with BJ => "BesselJ" | BY => "BesselY" | BI => "BesselI" | BK => "BesselK" end.
+Definition fn_classes : list string :=
+  [ "Sqrt"; "Exp"; "Ln"; "Cos"; "Sin"; "Tan"; "Cosh"; "Sinh"; "Tanh"; "Acos"; "Asin"; "Atan"; "Erf";
+    "BesselJ"; "BesselY"; "BesselI"; "BesselK" ].
+Definition fn_handlers : list string :=
+  [ "sqrt"; "exp"; "ln"; "cos"; "sin"; "tan"; "cosh"; "sinh"; "tanh"; "acos"; "asin"; "atan"; "erf";
+    "math_function"; "bessel_function"; "bessel_j"; "bessel_y"; "bessel_i"; "bessel_k" ].
+Definition smem (x : string) (l : list string) : bool := existsb (String.eqb x) l.
+Definition cfn_cl (cl : list string) (f : mathfn) : bool := smem (mathfn_class f) cl.
+Definition cbs_cl (cl : list string) (k : bkind) : bool := smem (bkind_class k) cl.
+Definition full_cl : list string := [ "Sqrt"; "Ln"; "Acos"; "Asin"; "BesselJ"; "BesselY"; "BesselI"; "BesselK" ].
+Definition pinned_cl : list string := [ "Sqrt" ].
+Lemma cfn_cl_full f : cfn_cl full_cl f = cfn_of true f.   Proof. destruct f; reflexivity. Qed.
+Lemma cbs_cl_full k : cbs_cl full_cl k = cbs_of true k.   Proof. destruct k; reflexivity. Qed.
+Lemma cfn_cl_pinned f : cfn_cl pinned_cl f = cfn_of false f. Proof. destruct f; reflexivity. Qed.
+Lemma cbs_cl_pinned k : cbs_cl pinned_cl k = cbs_of false k. Proof. destruct k; reflexivity. Qed.
+(* dispatch table of the variant cl *)
+Definition cc_dispatch_cl (cl : list string) : list (string * string) :=
+  map (fun p : string * string =>
+         let (c, h) := p in
+         (c, if smem c fn_classes then (if smem c cl then "sqrt" else "expr") else h))
+      cc_dispatch0.
+(* an alias the model understands: one of the five of the pinned class, or a math-function / Bessel
+   handler name bound to the constant-"complex" rule `sqrt` *)
+Definition alias_ok (p : string * string) : bool :=
+  let (a, b) := p in
+  existsb (fun q : string * string => String.eqb a (fst q) && String.eqb b (snd q)) (cc_aliases false)
+  || (String.eqb b "sqrt" && smem a fn_handlers).
+Close Scope string_scope.
+
+Definition agree_check (cl : list string) (inp : expr) (impl : option (expr * nat)) : bool :=
+  match check (cfn_cl cl) (cbs_cl cl) inp, impl with
   | None, None => true
   | Some (o, t), Some (o', t') => eqc o o' && Nat.eqb (ty_code t) t'
   | _, _ => false
@@ -126,6 +169,16 @@ Definition agree_remove (inp : expr) (impl : option expr) : bool :=
   | Some o, Some o' => eqc o o'
   | _, _ => false
   end.
+
+(* pipeline obligations: an integrand that left complex-mode preprocessing must be accepted by the
+   checker as it stands, with every ordering site already of the wrapped shape (C23_wrap); an integrand
+   that left real-mode preprocessing contains no Conj / Real / Imag / complex literal *)
+Definition pipe_ok (cl : list string) (out : expr) : bool :=
+  match check (cfn_cl cl) (cbs_cl cl) out with
+  | Some _ => forallb wrapped_site (sites out)
+  | None => false
+  end.
+Definition pipe_clean (out : expr) : bool := cfree out.
 
 (* sanity: the comparator is reflexive on a term using every binder kind, and distinguishes a wrap *)
 Example eqc_selftest :
